@@ -268,6 +268,20 @@ func (g *genCtx) genEntries(n int, existing []string) ([]*tar.Header, []string) 
 			if g.layer && len(stagedNames) > 0 && r.chance(1, 2) {
 				h.Linkname = ".wh..wh.plnk/" + stagedNames[r.intn(len(stagedNames))]
 			}
+			if g.layer && r.chance(1, 8) {
+				// the way AUFS itself stores a whiteout: a hard link to its one whiteout inode
+				t := "a"
+				if len(existing) > 0 {
+					t = existing[r.intn(len(existing))]
+				}
+				t = strings.TrimSuffix(t, "/")
+				if i := strings.LastIndex(t, "/"); i >= 0 {
+					name = t[:i+1] + ".wh." + t[i+1:]
+				} else {
+					name = ".wh." + t
+				}
+				h.Linkname = ".wh..wh.aufs"
+			}
 		case k < 80:
 			h.Typeflag = tar.TypeFifo
 		case k < 84:
